@@ -158,7 +158,7 @@ def run(c):
     for cat in ("empty body", "body ending CR", "body ending LF", "body ending CRLF", "boundary with interior hyphens", "browser-style parameter", "rejection: no opening boundary", "rejection: no closing boundary", "rejection: header-less part"):
         c.need(cat)
     for lane in ("rel", "chk"):
-        obs = core.run_cases(cases, lane=lane)
+        obs = core.run_cases(cases, lane=lane, poison=("multipart", "http"))
         for cs in cases:
             o = obs.get(cs.id)
             bclass, b, parts, spelling = meta[cs.id]
